@@ -465,7 +465,7 @@ def load_known():
 
 TRUSTED_BASE = [
     "Coq 8.16.1 kernel (coqc, full .vo build; vm_compute used, native_compute not used)",
-    "standard-library axiom Coq.Logic.FunctionalExtensionality.functional_extensionality_dep (C20 only: equality of register files as functions); no other axiom",
+    "standard-library axiom Coq.Logic.FunctionalExtensionality.functional_extensionality_dep (C04 and C20 only - the stack-conjugation theorems and the determinism theorems: equality of register files as functions; the per-property list is in print_assumptions); no other axiom",
     "ax2coq translator (Rust->Gallina for the instruction-semantics files); validated by impl<->model correspondence in two build profiles",
     "hand-written models of memory.rs, execute.rs, hooks.rs, syscalls.rs, trace.rs, elf.rs (modelled, not verified); tie = correspondence",
     "iced-x86 decoder behind the decoded-instruction record (decode lines logged by the harness)",
